@@ -1,7 +1,47 @@
-import Driver.Common
-/-! Line-protocol handlers for C12 (sub-commands `c12` / `c12-*`). -/
-namespace Driver.C12
+import ElvisVerif.Generated.ModCmpKernels
+import Driver.C01
+/-! Line-protocol handlers for C12.
 
-def dispatch (_sub : String) (_i _o : IO.FS.Stream) : Option (IO Unit) := none
+* `c12` — the comparison grid: `lt a b`, `leq a b`, `gt a b`, `geq a b`, `bnd a c1 b c2 c`
+  (`c1`, `c2` ∈ `lt`/`leq`), answered `1`/`0` by the kernels EXTRACTED from `modular_cmp.rs`
+  (`Generated/ModCmpKernels.lean`), the definitions the theorems of `Props/C12.lean` are about.
+* `c12-run*` — the two-endpoint TCP system of `Driver/C01.lean` (same ops, same answers); the
+  `alt issA issB` lines (the second ISN pair the harness executes the schedule with) are echoed. -/
+namespace Driver.C12
+open Elvis.Gen.ModCmp
+
+def u32? (s : String) : Option (BitVec 32) := do
+  let n ← s.toNat?
+  if n < 4294967296 then some (BitVec.ofNat 32 n) else none
+
+def cmp? : String → Option Cmp
+  | "lt" => some .Lt
+  | "leq" => some .Leq
+  | _ => none
+
+def bit (b : Bool) : String := if b then "1" else "0"
+
+def gridStep (st : Unit) (ws : List String) : Unit × String :=
+  let r : Option String :=
+    match ws with
+    | ["case", id] => some s!"case {id}"
+    | ["lt", a, b] => do pure (bit (mod_lt (← u32? a) (← u32? b)))
+    | ["leq", a, b] => do pure (bit (mod_leq (← u32? a) (← u32? b)))
+    | ["gt", a, b] => do pure (bit (mod_gt (← u32? a) (← u32? b)))
+    | ["geq", a, b] => do pure (bit (mod_geq (← u32? a) (← u32? b)))
+    | ["bnd", a, c1, b, c2, c] => do
+      pure (bit (mod_bounded (← u32? a) (← cmp? c1) (← u32? b) (← cmp? c2) (← u32? c)))
+    | _ => none
+  (st, r.getD "bad-op")
+
+def runStep (st : Driver.C01.St) (ws : List String) : Driver.C01.St × String :=
+  match ws with
+  | "alt" :: _ => (st, "alt")
+  | _ => Driver.C01.step st ws
+
+def dispatch (sub : String) (i o : IO.FS.Stream) : Option (IO Unit) :=
+  if sub == "c12" then some (Driver.loop i o gridStep ())
+  else if sub.startsWith "c12-" then some (Driver.loop i o runStep {})
+  else none
 
 end Driver.C12
